@@ -1,5 +1,6 @@
 import DiscretModel.Lemmas.DailyLogRun
 import DiscretModel.Lemmas.DailyLogLazy
+import DiscretModel.Lemmas.DailyLogWindow
 import DiscretModel.Lemmas.SyncMarks
 /-
 C09 — the daily log is a function of the stored content, nothing else.
@@ -12,52 +13,110 @@ All statements quantify over every content, every number of rooms / entities / d
 -/
 namespace Discret.DailyLog
 
-/-- **C09 (recomputation barrier).** For the intended behaviour, a table satisfying the invariant with no
-    mark waiting to be written is turned by `compute` into exactly the log of the stored content. -/
-theorem C09_barrier {sigs : Content} {log : Log} (h : WInv sigs noPending log) :
-    IsLogOf sigs (recompute Defects.none sigs log) :=
-  recompute_isLogOf rfl rfl rfl rfl h
+/-! ### the statement, for every version of the code in which the three repairs of #20 and the window fix are in
+(`d.LogRepaired`); `Defects.none` is one, `Defects.asImplemented` is one as soon as the repairs are in /repo -/
+
+/-- **C09 (recomputation barrier).** A table satisfying the invariant with no mark waiting to be written is turned
+    by `compute` into exactly the log of the stored content. -/
+theorem C09_barrier_of {d : Defects} (hd : d.LogRepaired) {sigs : Content} {log : Log} (h : WInv sigs noPending log) :
+    IsLogOf sigs (recompute d sigs log) :=
+  recompute_isLogOf hd.seed hd.entity hd.emptied hd.window h
 
 /-- **C09 (invariant over any schedule).** Starting from an empty database, after ANY sequence of writes
     (each marking the days whose signatures it changes, or relying on marks already collected by its batch),
     end-of-batch mark writes and recomputations — processed at ANY point, also in the middle of a batch whose
     marks are not written yet — the invariant between content, table and pending marks holds. No bound on
     the schedule, the batches or where recomputation is asked. -/
-theorem C09_invariant (steps : List Step) (hok : runOk Defects.none St.init steps) :
-    WInv (run Defects.none St.init steps).sigs (pendOf (run Defects.none St.init steps).pend)
-      (run Defects.none St.init steps).log :=
-  run_winv rfl rfl rfl rfl steps init_winv hok
+theorem C09_invariant_of {d : Defects} (hd : d.LogRepaired) (steps : List Step) (hok : runOk d St.init steps) :
+    WInv (run d St.init steps).sigs (pendOf (run d St.init steps).pend) (run d St.init steps).log :=
+  run_winv hd.seed hd.entity hd.emptied hd.window steps init_winv hok
 
 /-- **C09 (the log is a function of the content).** After any such schedule, once the batch is committed and
-    the pending recomputation has run, the table is the log of the stored content. -/
-theorem C09_log_of_content (steps : List Step) (hok : runOk Defects.none St.init steps) :
-    IsLogOf (run Defects.none St.init steps).sigs
-      (run Defects.none St.init (steps ++ [.commit, .compute])).log := by
-  have hw := C09_invariant steps hok
+    the pending recomputation has run, the table is the log of the stored content: one row per
+    `(room, entity, day)` that has content, with the entry count, the hash of the sorted signatures and the
+    chained history hash computed from scratch. -/
+theorem C09_log_of_content_of {d : Defects} (hd : d.LogRepaired) (steps : List Step) (hok : runOk d St.init steps) :
+    IsLogOf (run d St.init steps).sigs (run d St.init (steps ++ [.commit, .compute])).log := by
+  have hw := C09_invariant_of hd steps hok
   rw [run_append]
   simp only [run, St.step]
-  refine C09_barrier ?_
-  have := WInv_markAll (P' := noPending) (run Defects.none St.init steps).pend (hw.mono (fun r e d x => Or.inr x))
+  refine C09_barrier_of hd ?_
+  have := WInv_markAll (P' := noPending) (run d St.init steps).pend (hw.mono (fun r e d x => Or.inr x))
   exact this
 
 /-- **C09 (equal content ⇒ equal logs, whatever order or batching produced them).** Two databases reached by
     two arbitrary schedules that store the same signatures for every `(room, entity, day)` (in any order)
     have identical tables, history hashes included. -/
+theorem C09_equal_content_equal_log_of {d : Defects} (hd : d.LogRepaired) (s1 s2 : List Step)
+    (h1 : runOk d St.init s1) (h2 : runOk d St.init s2)
+    (hc : ∀ r e dd, ((run d St.init s1).sigs r e dd).Perm ((run d St.init s2).sigs r e dd)) :
+    (run d St.init (s1 ++ [.commit, .compute])).log = (run d St.init (s2 ++ [.commit, .compute])).log :=
+  ((C09_log_of_content_of hd s1 h1).congr hc).unique (C09_log_of_content_of hd s2 h2)
+
+/-- **C09 (different content ⇒ different logs).** With the hash idealised as the identity on what it is fed,
+    equal tables force equal signature multisets on every `(room, entity, day)`. -/
+theorem C09_equal_log_equal_content_of {d : Defects} (hd : d.LogRepaired) (s1 s2 : List Step)
+    (h1 : runOk d St.init s1) (h2 : runOk d St.init s2)
+    (hl : (run d St.init (s1 ++ [.commit, .compute])).log = (run d St.init (s2 ++ [.commit, .compute])).log) :
+    ∀ r e dd, ((run d St.init s1).sigs r e dd).Perm ((run d St.init s2).sigs r e dd) :=
+  (C09_log_of_content_of hd s1 h1).injective (hl ▸ C09_log_of_content_of hd s2 h2)
+
+/-- **C09 (injectivity of the specification).** Whatever produced them: two tables that are the logs of two
+    contents are equal only if every `(room, entity, day)` stores the same signatures in both (as multisets), and
+    two contents that agree in that sense have the same log. -/
+theorem C09_logOf_injective {sigs sigs' : Content} {log log' : Log} (h : IsLogOf sigs log) (h' : IsLogOf sigs' log') :
+    log = log' ↔ ∀ r e dd, (sigs r e dd).Perm (sigs' r e dd) :=
+  ⟨fun e => h.injective (e ▸ h'), fun hc => (h.congr hc).unique h'⟩
+
+theorem Defects.none_logRepaired : Defects.none.LogRepaired := ⟨rfl, rfl, rfl, rfl⟩
+
+/-! ### … instantiated for the intended behaviour -/
+
+/-- **C09 (recomputation barrier).** For the intended behaviour, a table satisfying the invariant with no
+    mark waiting to be written is turned by `compute` into exactly the log of the stored content. -/
+theorem C09_barrier {sigs : Content} {log : Log} (h : WInv sigs noPending log) :
+    IsLogOf sigs (recompute Defects.none sigs log) :=
+  C09_barrier_of Defects.none_logRepaired h
+
+/-- **C09 (invariant over any schedule)**, intended behaviour. -/
+theorem C09_invariant (steps : List Step) (hok : runOk Defects.none St.init steps) :
+    WInv (run Defects.none St.init steps).sigs (pendOf (run Defects.none St.init steps).pend)
+      (run Defects.none St.init steps).log :=
+  C09_invariant_of Defects.none_logRepaired steps hok
+
+/-- **C09 (the log is a function of the content)**, intended behaviour. -/
+theorem C09_log_of_content (steps : List Step) (hok : runOk Defects.none St.init steps) :
+    IsLogOf (run Defects.none St.init steps).sigs
+      (run Defects.none St.init (steps ++ [.commit, .compute])).log :=
+  C09_log_of_content_of Defects.none_logRepaired steps hok
+
+/-- **C09 (equal content ⇒ equal logs, whatever order or batching produced them)**, intended behaviour. -/
 theorem C09_equal_content_equal_log (s1 s2 : List Step) (h1 : runOk Defects.none St.init s1)
     (h2 : runOk Defects.none St.init s2)
     (hc : ∀ r e d, ((run Defects.none St.init s1).sigs r e d).Perm ((run Defects.none St.init s2).sigs r e d)) :
     (run Defects.none St.init (s1 ++ [.commit, .compute])).log =
       (run Defects.none St.init (s2 ++ [.commit, .compute])).log :=
-  ((C09_log_of_content s1 h1).congr hc).unique (C09_log_of_content s2 h2)
+  C09_equal_content_equal_log_of Defects.none_logRepaired s1 s2 h1 h2 hc
 
-/-- **C09 (different content ⇒ different logs).** With the hash idealised as the identity on what it is fed,
-    equal tables force equal signature multisets on every `(room, entity, day)`. -/
+/-- **C09 (different content ⇒ different logs)**, intended behaviour. -/
 theorem C09_equal_log_equal_content (s1 s2 : List Step) (h1 : runOk Defects.none St.init s1)
     (h2 : runOk Defects.none St.init s2)
     (hl : (run Defects.none St.init (s1 ++ [.commit, .compute])).log =
       (run Defects.none St.init (s2 ++ [.commit, .compute])).log) :
     ∀ r e d, ((run Defects.none St.init s1).sigs r e d).Perm ((run Defects.none St.init s2).sigs r e d) :=
-  (C09_log_of_content s1 h1).injective (hl ▸ C09_log_of_content s2 h2)
+  C09_equal_log_equal_content_of Defects.none_logRepaired s1 s2 h1 h2 hl
+
+/-- **C09_partial_daily (any version of the code that reads its window before the loop).** Whatever the state of
+    the table and of the cursor, every day that is MARKED and has content is recomputed to a row carrying the entry
+    count and the daily hash of the content of that day; a marked day without content too when emptied days keep
+    their row. Missing for the full statement: the history hash, days that were not marked although their
+    content changed, and rows of emptied days (witnesses below). -/
+theorem C09_partial_daily_of {d : Defects} (hl : d.lazyScan = false) (sigs : Content) (log : Log) :
+    ∀ g ∈ log, ∀ r ∈ g.rows, r.dirty = true → (d.emptyDayRow = true ∨ sigs g.room g.ent r.day ≠ []) →
+      ∃ g' ∈ recompute d sigs log, g'.room = g.room ∧ g'.ent = g.ent ∧
+        ∃ r' ∈ g'.rows, r'.day = r.day ∧ r'.dirty = false ∧
+          r'.count = (sigs g.room g.ent r.day).length ∧ r'.daily = dailyOf (sigs g.room g.ent r.day) :=
+  recomputeFrom_marked_static hl sigs log Cursor.init
 
 /-- **C09_partial_daily (the code as it is).** Whatever the state of the table and of the cursor, every day
     that is MARKED is recomputed to a row carrying the entry count and the daily hash of the content of
@@ -68,12 +127,21 @@ theorem C09_partial_daily (sigs : Content) (log : Log) :
       ∃ g' ∈ recompute Defects.asImplemented sigs log, g'.room = g.room ∧ g'.ent = g.ent ∧
         ∃ r' ∈ g'.rows, r'.day = r.day ∧ r'.dirty = false ∧
           r'.count = (sigs g.room g.ent r.day).length ∧ r'.daily = dailyOf (sigs g.room g.ent r.day) :=
-  recomputeFrom_marked_static rfl rfl sigs log Cursor.init
+  fun g hg r hr hd => C09_partial_daily_of rfl sigs log g hg r hr hd (Or.inl rfl)
+
+/-- **C09 (the window of `compute` is modelled literally).** On a group whose rows are in day order (the primary key
+    order, part of the invariant), the rows the model of the loop walks are exactly those the SQL text selects —
+    `date >= IFNULL(max(date) before the first marked date, first marked date)`, nothing when no day is marked —
+    and the rows it leaves alone are exactly the others. For every version of the code since 079e672. -/
+theorem C09_window_is_sql_window {d : Defects} (hl : d.lazyScan = false) (sigs : Content) (c : Cursor) {g : Group}
+    (hs : RowsSorted g.rows) :
+    recomputeGroup d sigs c g =
+      if (windowSql g.rows).isEmpty then (c, g)
+      else ((walkRows d sigs g.room g.ent c (windowSql g.rows)).1,
+            { g with rows := untouchedSql g.rows ++ (walkRows d sigs g.room g.ent c (windowSql g.rows)).2 }) :=
+  recomputeGroup_sql hl sigs c hs
 
 /-! ### witnesses: the code as it is does not satisfy the full statement -/
-
-def contentOf (items : List (Key × Sig)) : Content :=
-  fun r e d => (items.filter fun x => x.1 = { room := r, ent := e, day := d }).map (·.2)
 
 def k10 : Key := { room := 1, ent := 0, day := 0 }
 def k11 : Key := { room := 1, ent := 0, day := 1 }
@@ -152,6 +220,67 @@ theorem C09_breaks_lazyScan_stale :
 /-- the code as it is, all switches on, on the same two schedules: equal content, different tables -/
 theorem C09_breaks_asImplemented :
     (run Defects.asImplemented St.init twoDays).log ≠ (run Defects.asImplemented St.init twoDaysAtOnce).log := by
+  decide
+
+/-- the code before the three repairs of #20, all switches on, on the same two schedules: equal content,
+    different tables -/
+theorem C09_breaks_beforeFixHistory :
+    (run Defects.beforeFixHistory St.init twoDays).log ≠ (run Defects.beforeFixHistory St.init twoDaysAtOnce).log := by
+  decide
+
+/-! ### non-vacuity: schedules that go through every branch of the repaired loop -/
+
+/-- days 0, 1, 2 of entity 0 and day 0 of entity 1, written and recomputed day by day; then the only row of day 0
+    is deleted (the FIRST day of the group is emptied: the unmarked day 1 that follows must start the chain);
+    then the only row of day 1 moves to day 2 (an emptied day in the middle, after a seed row … there is none
+    left, day 2 starts the chain) -/
+def emptiedDays : List Step :=
+  [.write (contentOf [(k10, 5)]) [k10], .commit, .compute,
+   .write (contentOf [(k10, 5), (k11, 6), (kp0, 9)]) [k11, kp0], .commit, .compute,
+   .write (contentOf [(k10, 5), (k11, 6), (kp0, 9), (k12, 7)]) [k12], .commit, .compute,
+   .write (contentOf [(k11, 6), (kp0, 9), (k12, 7)]) [k10], .commit, .compute,
+   .write (contentOf [(kp0, 9), (k12, 7), (k12, 8)]) [k11, k12], .commit, .compute]
+
+/-- the same final content written in one batch -/
+def emptiedDaysAtOnce : List Step :=
+  [.write (contentOf [(kp0, 9), (k12, 7), (k12, 8)]) [kp0, k12]]
+
+example : runOk Defects.none St.init emptiedDays := by
+  refine ⟨?_, trivial, trivial, ?_, trivial, trivial, ?_, trivial, trivial, ?_, trivial, trivial, ?_, trivial, trivial,
+    trivial⟩
+  · exact contentOf_marks_ok [] _ _ (by decide)
+  · exact contentOf_marks_ok [(k10, 5)] _ _ (by decide)
+  · exact contentOf_marks_ok [(k10, 5), (k11, 6), (kp0, 9)] _ _ (by decide)
+  · exact contentOf_marks_ok [(k10, 5), (k11, 6), (kp0, 9), (k12, 7)] _ _ (by decide)
+  · exact contentOf_marks_ok [(k11, 6), (kp0, 9), (k12, 7)] _ _ (by decide)
+
+example : runOk Defects.none St.init emptiedDaysAtOnce :=
+  ⟨contentOf_marks_ok [] _ _ (by decide), trivial⟩
+
+/-- … and, as `C09_equal_content_equal_log` says, both end with the same table: one row for day 2 of entity 0
+    (two entries, history = daily: it is the first day left) and one for day 0 of entity 1; the emptied days 0
+    and 1 have no row. Intermediate tables differ from the final one. -/
+example :
+    (run Defects.none St.init (emptiedDays ++ [.commit, .compute])).log =
+      (run Defects.none St.init (emptiedDaysAtOnce ++ [.commit, .compute])).log ∧
+    (run Defects.none St.init (emptiedDays ++ [.commit, .compute])).log =
+      [{ room := 1, ent := 0, rows := [{ day := 2, count := 2, daily := some (.daily [7, 8]),
+                                          hist := some (.daily [7, 8]), dirty := false }] },
+       { room := 1, ent := 1, rows := [{ day := 0, count := 1, daily := some (.daily [9]),
+                                          hist := some (.daily [9]), dirty := false }] }] ∧
+    (run Defects.none St.init (emptiedDays.take 12)).log =
+      [{ room := 1, ent := 0, rows := [{ day := 1, count := 1, daily := some (.daily [6]),
+                                          hist := some (.daily [6]), dirty := false },
+                                        { day := 2, count := 1, daily := some (.daily [7]),
+                                          hist := some (.chain (.daily [6]) (.daily [6])), dirty := false }] },
+       { room := 1, ent := 1, rows := [{ day := 0, count := 1, daily := some (.daily [9]),
+                                          hist := some (.daily [9]), dirty := false }] }] := by
+  decide
+
+/-- the code before the repairs ends the same schedule with rows for the emptied days and another history -/
+example :
+    (run Defects.beforeFixHistory St.init (emptiedDays ++ [.commit, .compute])).log ≠
+      (run Defects.beforeFixHistory St.init (emptiedDaysAtOnce ++ [.commit, .compute])).log := by
   decide
 
 end Discret.DailyLog
